@@ -34,6 +34,17 @@ class Finding:
     def key(self) -> str:
         return f"{self.rule}|{self.func}|{self.construct}"
 
+    @property
+    def alt_key(self) -> Optional[str]:
+        """Second identity of an atomicity finding that does not depend on WHICH function contains the write or the
+        rejection (stable when a block is extracted into, or inlined from, a private helper): the user operation that
+        was analysed, the text of the write and the text of the rejection."""
+        d = self.detail
+        if self.rule == "R-ATOM" and isinstance(d, dict) and d.get("entry") and isinstance(d.get("write"), dict) \
+                and isinstance(d.get("rejection"), dict):
+            return f"R-ATOM|{d['entry']}|{norm_text(d['write'].get('text', ''))} >> {norm_text(d['rejection'].get('text', ''))}"
+        return None
+
     def to_json(self) -> dict:
         return {"property": self.prop, "rule": self.rule, "function": self.func, "construct": self.construct,
                 "where": self.where, "message": self.message, "key": self.key, "detail": self.detail}
@@ -112,14 +123,21 @@ def finish(res: Result, tier: str, seed: int, wall_s: float, out_dir: Optional[s
     """Print verdict lines, write evidence/replay, return the exit code."""
     known = load_known()
     known_keys = {k["key"]: k for k in known.get("known", []) if k.get("property") == res.prop}
+    known_alts = {k["alt"]: k for k in known.get("known", []) if k.get("property") == res.prop and k.get("alt")}
     violations = []
     matched = []
+    hit_keys = set()
     for f in res.findings:
         if f.key in known_keys:
-            matched.append(f)
+            matched.append((f, known_keys[f.key]))
+            hit_keys.add(f.key)
+        elif f.alt_key is not None and f.alt_key in known_alts:
+            # the same (operation, write, rejection) as a listed finding, only located in another function now
+            matched.append((f, known_alts[f.alt_key]))
+            hit_keys.add(known_alts[f.alt_key]["key"])
         else:
             violations.append(f)
-    stale_known = [k for k in known_keys if k not in {f.key for f in res.findings}]
+    stale_known = [k for k in known_keys if k not in hit_keys]
     out_dir = out_dir or os.path.join(VERIF, "out")
     lines = []
     n_ob = len(res.obligations)
@@ -129,8 +147,8 @@ def finish(res: Result, tier: str, seed: int, wall_s: float, out_dir: Optional[s
     for k, v in res.units.items():
         if isinstance(v, (int, float, str)):
             lines.append(f"[{res.prop}]   analysed {k}: {v}")
-    for f in matched:
-        what = known_keys[f.key].get("what", f.message)
+    for f, kn in matched:
+        what = kn.get("what", f.message)
         lines.append(f"KNOWN-FINDING: property={res.prop} {f.where} {f.func}: {what}")
     for k in stale_known:
         lines.append(f"[{res.prop}] note: known finding no longer present (repaired?): {k}")
@@ -172,7 +190,7 @@ def write_evidence_file(res: Result, tier: str, seed: int, wall_s: float, matche
         "samples": samples or [{"note": "no obligations"}],
         "units": res.units,
         "not_decided": res.not_decided,
-        "known_findings_matched": [f.to_json() for f in matched],
+        "known_findings_matched": [f.to_json() for f, _kn in matched],
         "new_violations": [f.to_json() for f in violations],
         "notes": res.notes,
         "exhaustive": True,
